@@ -234,14 +234,22 @@ def main(argv):
     # code (sampled, never counted as proved; a failing input that did not fail on the unchanged tree is a violation with a replay)
     assumption_validation = None
     sweep_hits = []
-    if tier == 'thorough' and os.path.realpath(asm.REPO) == '/repo' and replaymod.build():
+    # quick tier: the same sweep stands in (sampled, labelled so) when the changed code left the verifier's language subset and no
+    # obligation could be generated for it -- the check then still exits 1 if a concrete failing input exists, and 2 otherwise
+    out_of_reach = [u for u in undecided if re.search(r': (frontend|internal|lost anchor)', u)]
+    do_sweep = (tier == 'thorough' or bool(out_of_reach)) and not os.environ.get('VERIF_NO_REPLAY')
+    if do_sweep and replaymod.build():
         files = replaymod.corpus()
         try:
+            if tier != 'thorough':
+                raise StopIteration
             pf = subprocess.run([replaymod.BIN, 'FACTS'] + files, capture_output=True, text=True, timeout=1200)
             assumption_validation = {'what': 'parser facts PF0-PF13 and the grammar table on every node of %d corpus files (inputs and formatted outputs)' % len(files),
                                      'cmd': 'build/replay-target/debug/vp-replay FACTS <corpus>', 'summary': pf.stderr.strip()[-300:], 'violations': [l for l in pf.stdout.split('\n') if l.strip()][:20]}
             if pf.returncode != 0:
                 undecided.append('parser facts assumed by the contracts do not hold on the corpus: ' + '; '.join(assumption_validation['violations'][:3]))
+        except StopIteration:
+            pass
         except Exception as e:  # noqa
             assumption_validation = {'error': str(e)}
         if pid in replaymod.LIB_PROPS:
@@ -249,7 +257,7 @@ def main(argv):
             known_inputs = replaymod.baseline_failures(pid)
             use = [f for f in files if os.path.relpath(f, asm.REPO if f.startswith(asm.REPO) else VERIF) not in known_inputs]
             sweep_hits = replaymod.run_oracle(pid, use, extra=['--max', '200'])
-            bounded.append({'harness': 'oracle sweep', 'kind': 'sampled', 'target': 'statement of %s checked by parsing input and output with typst-syntax' % pid,
+            bounded.append({'harness': 'oracle sweep' + (' (stand-in: changed code outside the verifier\'s reach)' if tier != 'thorough' else ''), 'kind': 'sampled', 'target': 'statement of %s checked by parsing input and output with typst-syntax' % pid,
                             'bound': '%d corpus inputs x widths 0/20/40/80/120 x tabs 2/4 (%d inputs skipped: they fail on the unchanged tree, see replay/baseline_failures.json)' % (len(use), len(files) - len(use)),
                             'status': 'failed' if sweep_hits else 'ok', 'seconds': round(time.time() - t1, 1)})
         elif pid in ('C14', 'C15', 'C16'):
